@@ -60,7 +60,7 @@ class Monitor:
         self.prev_call, self.this_call = self.this_call, [steps, rate, accel, accum]
         witness = {"fn": "calculate_lm", "args": [steps, rate, accel, accum],
                    "got": result, "expected": list(want), "previous_call": self.prev_call,
-                   "imported_under": self.imported_under}
+                   "imported_under": self.imported_under, "ambient": getattr(self, "ambient", None)}
         ok_shape = isinstance(result, tuple) and len(result) == 3 and \
             all(type(v) is int for v in result)
         if not ok_shape or tuple(result) != want:
@@ -90,13 +90,20 @@ def install(ctx):
 def one_case(ctx, mon, steps, rate, accel, accum, via="calculate_lm"):
     from plotink import ebb_calc, ebb_motion
     mon.res = None
-    try:
+    # the caller's arbitrary-precision settings at the time of the call are not the library's business:
+    # half of the cases are made with another ambient mpmath / decimal setting in force
+    amb = G.Ambient(*ctx.rng.choice(G.AMBIENT)) if ctx.rng.random() < 0.5 else G.Ambient("dps", 15)
+    mon.ambient = amb.describe()
+    ctx.tag("ambient:%s" % amb.kind)
+
+    def call():
         if via == "moveTimeLM":
             got = ebb_motion.moveTimeLM(rate, steps, accel)
             if mon.res is not None:
                 ctx.count("monitor:alias moveTimeLM")
                 if got != mon.res.duration:
                     ctx.violation("alias moveTimeLM", {"fn": "moveTimeLM", "args": [steps, rate, accel, "clear"],
+                                                       "ambient": mon.ambient,
                                                        "got": got, "expected": mon.res.duration})
         elif via == "default-accum":
             ebb_calc.calculate_lm(steps, rate, accel)
@@ -105,8 +112,12 @@ def one_case(ctx, mon, steps, rate, accel, accum, via="calculate_lm"):
             ctx.tag("arguments passed by keyword")
         else:
             ebb_calc.calculate_lm(steps, rate, accel, accum)
+
+    try:
+        with amb:
+            call()
     except Exception as exc:
-        ctx.violation("exception", {"fn": via, "args": [steps, rate, accel, accum],
+        ctx.violation("exception", {"fn": via, "args": [steps, rate, accel, accum], "ambient": mon.ambient,
                                     "exception": repr(exc)})
     return mon.res
 
